@@ -257,6 +257,11 @@ extern "C" int h_hist() {
   }
   // the object must still be usable: print, save, reload (C10, C13)
   const int finish = __vp_cfg("finish");   // 1: always, 2: only when the last call was refused
+  if (finish == 4) {      // C03: the saved file itself is the observation
+    dump_all(*c, "pre", true);
+    c->write("out.c3d");
+    __vp_tag("files"); __vp_obs_file("out.c3d");
+  }
   if (finish == 3) {
     dump_all(*c, "pre", false);
     c->write("final.c3d");
